@@ -59,12 +59,14 @@ struct B_ : state_machine_def<B_> {
 // ---- variant R: the row2 family, behaviours are members of STATES (and one guard a member of the machine)
 // (not under backmp11: row2_helper reaches the state through fusion::at_key on the state set, which is a std::tuple there - does not compile)
 #if !IS_MP11
+static const void* g_obj[8];
 struct R_ : state_machine_def<R_> {
-  struct S0 : LS<0> { void actA(ea const&){ ac("aA"); } bool guA(ea const&){ return gd(GA, "gA"); } };
-  struct S1 : LS<1> { void actB(eb const&){ ac("aB"); } void actI(ei const&){ ac("aI"); } bool guI(ei const&){ return gd(GI, "gI"); } void actJ(ej const&){ ac("aJ"); } bool guK(ek const&){ return gd(GI, "gK"); } };
+  // (g_obj / n: the object a behaviour is called on must be the machine's own state instance - scenario row2-family.behaviours-run-on-the-machines-own-state-objects)
+  struct S0 : LS<0> { int n = 0; void actA(ea const&){ g_obj[0] = this; ++n; ac("aA"); } bool guA(ea const&){ g_obj[1] = this; return gd(GA, "gA"); } };
+  struct S1 : LS<1> { int n = 0; void actB(eb const&){ g_obj[2] = this; ++n; ac("aB"); } void actI(ei const&){ g_obj[3] = this; ++n; ac("aI"); } bool guI(ei const&){ g_obj[4] = this; return gd(GI, "gI"); } void actJ(ej const&){ g_obj[5] = this; ++n; ac("aJ"); } bool guK(ek const&){ g_obj[6] = this; return gd(GI, "gK"); } };
   struct S2 : LS<2> {};
   typedef S0 initial_state;
-  bool guC(ec const&){ return gd(GC, "gC"); } void actF(ef const&){ ac("aF"); } bool guF(ef const&){ return gd(GF, "gF"); }
+  bool guC(ec const&){ g_obj[7] = this; return gd(GC, "gC"); } void actF(ef const&){ ac("aF"); } bool guF(ef const&){ return gd(GF, "gF"); }
   typedef R_ p;
   struct transition_table : mpl::vector<
     row2<S0, ea, S1, S0, &S0::actA, S0, &S0::guA>, a_row2<S1, eb, S2, S1, &S1::actB>, g_row2<S2, ec, S0, p, &p::guC>, _row2<S0, ed, S2>,
@@ -128,6 +130,14 @@ int main(int argc, char** argv) {
   variant<B_>("basic-member-rows");
 #if !IS_MP11
   variant<R_>("row2-family");
+  { typedef BE<R_> M; g_bits = ~0u; for (auto& o : g_obj) o = nullptr; M m; m.start();
+    m.process_event(ea()); m.process_event(ei()); m.process_event(ej()); m.process_event(ek()); m.process_event(ei()); m.process_event(eb()); m.process_event(ec());
+    const void* s0 = &m.template get_state<R_::S0&>(); const void* s1 = &m.template get_state<R_::S1&>(); const void* me = static_cast<R_*>(&m);
+    bool same = g_obj[0] == s0 && g_obj[1] == s0 && g_obj[2] == s1 && g_obj[3] == s1 && g_obj[4] == s1 && g_obj[5] == s1 && g_obj[6] == s1 && g_obj[7] == me;
+    int n0 = m.template get_state<R_::S0&>().n, n1 = m.template get_state<R_::S1&>().n;
+    report("row2-family.behaviours-run-on-the-machines-own-state-objects", same && n0 == 1 && n1 == 4, "C14,C02",
+           std::string("row2 actions / guards that are members of a state are called on the state instance the machine owns (not on a copy): addresses ") + (same ? "agree" : "DIFFER")
+           + ", data written by the actions: S0.n=" + std::to_string(n0) + " (expected 1) S1.n=" + std::to_string(n1) + " (expected 4)"); }
 #endif
   variant<L_>("state-local-internal-table");
   return finish();
